@@ -1364,6 +1364,13 @@ class Frame:
             if isinstance(v, (AOpq,)):
                 self.I.st.assumed.append(f"assert at {self.fi.module.relpath}:{st.lineno}")
                 return
+            if getattr(self.I, "assert_ranges", False) and isinstance(v, ACond) and v.kind.startswith("ord:") and len(v.parts) == 2 \
+                    and isinstance(v.parts[0], AInt) and isinstance(v.parts[1], int) and self._independent_bits(v.parts[0]):
+                # a range assertion over a value whose free bits are independent inputs: the bounds test in compare() was exact, so
+                # both outcomes are feasible — the failing side is explored (the rule decides whether rejecting that value is allowed)
+                if not self.I.decide(v, f"assert:{st.lineno}"):
+                    raise PathRaise("AssertionError", f"{self.fi.module.relpath}:{st.lineno}")
+                return
             if isinstance(v, (AInt, ACond)) and not (isinstance(v, AInt) and v.ext is None and all(isinstance(b, F) and b.is_const for b in self.I.simp_bits(v.bits))):
                 # an undecided assert is assumed to hold (the failing side is a documented error exit)
                 self.I.st.assumed.append(f"assert at {self.fi.module.relpath}:{st.lineno}")
@@ -1374,6 +1381,22 @@ class Frame:
             return
         if not ok:
             raise PathRaise("AssertionError", f"{self.fi.module.relpath}:{st.lineno}")
+
+    def _independent_bits(self, x) -> bool:
+        """every non-constant bit of the abstract int is a distinct single input atom (so the value ranges over a full cube)"""
+        if x.ext is not None or x.signed:
+            return False
+        seen = set()
+        for b in self.I.simp_bits(x.bits):
+            if not isinstance(b, F):
+                return False
+            if b.is_const:
+                continue
+            at = list(b.atoms())
+            if len(at) != 1 or at[0] in seen or self.I._is_fn_form(b):
+                return False
+            seen.add(at[0])
+        return True
 
     def st_Raise(self, st):
         name = "Exception"
